@@ -11,7 +11,7 @@ from harness import zones as Z
 ID = "C08"
 BACKENDS = ("py", "rs")
 GEN_MODULES = ("Format", "FormatLocales", "Tables", "Helpers")
-MIN_THEOREMS = 38
+MIN_THEOREMS = 39
 RULE = ("fmt: every alternative of the _TOKENS token group alone (localized ones in all 27 locales) and random sequences of 1..8 parts "
         "(documented + moment.js-heritage tokens, safe literal separators, [...] escapes, backslash escapes) x datetimes from uniformly "
         "random instants in years 1000..9999 (day/month/year boundaries, noon/midnight, us in {0,1,999,1000,100000,500000,999999,random}) x "
@@ -21,8 +21,11 @@ RULE = ("fmt: every alternative of the _TOKENS token group alone (localized ones
         "optional dddd|ddd|dd|E|d) in random order with separators/escapes, plus every month and weekday name of every locale; "
         "fromfmt: Formatter.parse with an injected now on reference-rendered strings of 55 partial formats (defaulting rules), on "
         "7 kinds of guaranteed-mismatch mutations + trailing newline + unknown words (ValueError), and on digit-perturbed strings "
-        "(out-of-range values, 13 PM, +99:99, blanks: model/implementation agreement only). non-trivial = every op except a single "
-        "non-localized token")
+        "(out-of-range values, 13 PM, +99:99, blanks: model/implementation agreement only); h24mer: a 24-hour token next to the "
+        "meridiem token (HH|H [mm|m [ss|s [S..SSSSSS]]] + A|a before or after, en and localized AM/PM words, optional date prefix) x "
+        "hours 0..25, 99 x AM/PM x every zero/non-zero pattern of the minute/second/fraction present, through Formatter.parse and "
+        "through pendulum.from_format: hours 1..12 must read as the 12-hour clock says (strptime %I %p), hours >= 13 must raise "
+        "ValueError, no input may raise anything else. non-trivial = every op except a single non-localized token")
 EXHAUSTIVE = {"quick": False, "thorough": False}
 TRUSTED = [
     "Gen.Format / Gen.FormatLocales / Gen.FormatZones are regenerated from formatter.py, datetime.py, the 27 locale packages and pendulum.timezones() each run",
@@ -634,6 +637,8 @@ def gen_parse_ops(rng, tier):
     for loc in LOCALES:
         for t in ("dddd", "ddd", "dd", "MMMM", "MMM"):
             yield ("fromfmt", loc, (("t", t),), "invalid", gen_now(rng), ("err", "ValueError"), "mut:word")
+    # 7b. a 24-hour token next to the meridiem token (hours 0..25, 99; zero and non-zero minute/second/fraction)
+    yield from gen_h24_meridiem(rng, tier)
     # 8. perturbed digits / out-of-range values: no expectation of the oracle, model and implementation must agree
     #    (which error, which raw values: month 13, hour 25, 13 PM, day-of-year 366, offsets +99:99, "Z", blanks …)
     pert = PARTIALS + [["YYYY", "MM", "DD", "HH", "mm", "ss", "SSSSSS", "Z"], ["YYYY", "DDDD", "hh", "mm", "A"], ["Y", "M", "D"],
@@ -700,6 +705,87 @@ def gen_parse_ops(rng, tier):
         yield ("fromfmt", loc, parts, string, gen_now(rng), ("any",), "perturbed")
 
 
+# ---- a 24-hour token next to the meridiem token --------------------------------------------------------------
+H24_SHAPES = [("H",), ("H", "m"), ("H", "m", "s"), ("H", "m", "s", "S"), ("H", "s"), ("H", "S"), ("H", "m", "S")]
+H24_HOURS = list(range(0, 26)) + [99]
+
+
+def ref_hour12(h, pm):
+    """hour of the day of `h` o'clock AM/PM as the standard library reads the 12-hour clock (1 <= h <= 12)"""
+    return dt.datetime.strptime("%d %s" % (h, "PM" if pm else "AM"), "%I %p").hour
+
+
+def gen_h24_meridiem(rng, tier):
+    """formats with HH|H and A|a: the hour is on the 24-hour token, the meridiem is read as well"""
+    reps = {"quick": 1, "thorough": 12, "widen": 4}[tier]
+    for _ in range(reps):
+        for shape in H24_SHAPES:
+            present = shape[1:]
+            for h in H24_HOURS:
+                for pm in (False, True):
+                    for zmask in range(1 << len(present)):
+                        mer = rng.choice(("A", "A", "a"))
+                        loc = "en" if (mer == "a" or rng.random() < 0.7) else rng.choice(LOCALES)
+                        L = locdata(loc)
+                        toks, pieces = [], []
+                        htok = rng.choice(("HH", "H"))
+                        toks.append(htok)
+                        pieces.append(("%02d" if rng.random() < (0.9 if htok == "HH" else 0.2) else "%d") % h)
+                        mi = sec = us = 0
+                        for i, f in enumerate(present):
+                            nz = bool(zmask >> i & 1)
+                            if f == "m":
+                                mi = rng.choice((1, 30, 59, rng.randint(1, 59))) if nz else 0
+                                t = rng.choice(("mm", "m"))
+                                toks.append(t)
+                                pieces.append(("%02d" if t == "mm" else "%d") % mi)
+                            elif f == "s":
+                                sec = rng.choice((1, 30, 59, rng.randint(1, 59))) if nz else 0
+                                t = rng.choice(("ss", "s"))
+                                toks.append(t)
+                                pieces.append(("%02d" if t == "ss" else "%d") % sec)
+                            else:
+                                k = rng.randint(1, 6)
+                                v = rng.choice((1, 10 ** k - 1, rng.randint(1, 10 ** k - 1))) if nz else 0
+                                us = v * 10 ** (6 - k)
+                                toks.append("S" * k)
+                                pieces.append("%0*d" % (k, v))
+                        word = (("pm" if pm else "am") if mer == "a" else (L["pm"] if pm else L["am"]))
+                        seps = [rng.choice((":", ":", ".", " ", "-")) for _ in toks]
+                        parts, text = [], []
+                        front = rng.random() < 0.2
+                        if front:
+                            parts += [("t", mer), ("l", " ")]
+                            text += [word, " "]
+                        for i, (t, pc) in enumerate(zip(toks, pieces)):
+                            if i:
+                                sp = "." if t.startswith("S") and rng.random() < 0.7 else seps[i]
+                                parts.append(("l", sp))
+                                text.append(sp)
+                            parts.append(("t", t))
+                            text.append(pc)
+                        if not front:
+                            sp = rng.choice((" ", " ", "", "_"))
+                            if sp:
+                                parts.append(("l", sp))
+                                text.append(sp)
+                            parts.append(("t", mer))
+                            text.append(word)
+                        now = gen_now(rng)
+                        y, mo, d = now
+                        if rng.random() < 0.15:
+                            y, mo, d = rng.randint(1000, 9999), rng.randint(1, 12), rng.randint(1, 28)
+                            parts = [("t", "YYYY"), ("l", "-"), ("t", "MM"), ("l", "-"), ("t", "DD"), ("l", rng.choice((" ", "T")))] + parts
+                            text = ["%04d-%02d-%02d" % (y, mo, d), parts[5][1]] + text
+                        if h >= 13:
+                            exp = ("err", "ValueError")
+                        elif h >= 1:
+                            exp = ("ok", y, mo, d, ref_hour12(h, pm), mi, sec, us, "none")
+                        else:
+                            exp = ("noraise",)
+                        yield ("fromfmt", loc, tuple(parts), "".join(text), now, exp, "h24mer")
+
+
 def corpus():
     """minimised past failures (all found by this check on the pinned tree), run first"""
     now = (2015, 11, 12)
@@ -716,6 +802,10 @@ def corpus():
         ("fromfmt", "en", (("t", "YYYY"),), "2021\n", now, ("err", "ValueError"), "mut:newline"),
         ("fromfmt", "en", (("t", "x"),), "-1250", now, ("ok", 1969, 12, 31, 23, 59, 58, 750000, "none"), "partial"),
         ("rt", "en", full(*base, "Z", "d"), ("f", 0), w, 0, now),                                                # F30 (known)
+        ("fromfmt", "en", full("HH", "A"), "13 PM", now, ("err", "ValueError"), "h24mer"),                      # TypeError on the pinned tree
+        ("fromfmt", "en", (("t", "H"), ("l", ":"), ("t", "mm"), ("l", " "), ("t", "a")), "13:00 am", now, ("err", "ValueError"), "h24mer"),
+        ("fromfmt", "en", full("HH", "A"), "11 PM", now, ("ok", 2015, 11, 12, 23, 0, 0, 0, "none"), "h24mer"),
+        ("fromfmt", "en", full("HH", "A"), "12 AM", now, ("ok", 2015, 11, 12, 0, 0, 0, 0, "none"), "h24mer"),
     ]
 
 
@@ -842,6 +932,11 @@ def _with_locale(op, loc, fn):
         p.set_locale("en")
 
 
+def _crc(op):
+    import zlib
+    return zlib.crc32(repr(op).encode())
+
+
 def impl(op, backend):
     k = op[0]
     try:
@@ -866,6 +961,11 @@ def impl(op, backend):
             _, loc, parts, string, now, exp, why = op
             p = _P["p"]
             nowdt = p.datetime(now[0], now[1], now[2], 11, 22, 33, 444555)
+            if why == "h24mer" and _crc(op) % 2:
+                # the public entry point (no zone token in these formats: the result is in the default UTC)
+                _P["now"] = nowdt
+                x = p.from_format(string, assemble(parts), locale=loc)
+                return "ok %d %d %d %d %d %d %d none" % (x.year, x.month, x.day, x.hour, x.minute, x.second, x.microsecond)
             r = _P["F"].parse(string, assemble(parts), nowdt, locale=loc)
             tz = r["tz"]
             if tz is None:
@@ -951,6 +1051,10 @@ def oracle(op, out, backend):
         fmt = assemble(parts)
         if exp[0] == "any":
             return None
+        if exp[0] == "noraise":
+            if out.startswith("ok ") or out == "err ValueError":
+                return None
+            return f"Formatter.parse({string!r}, {fmt!r}) [{why}]: neither a result nor ValueError: {out}"
         if exp[0] == "err":
             if out == "err ValueError":
                 return None
